@@ -437,6 +437,18 @@ impl MT103 {
             ));
         }
 
+        if (bank_op_code == "SSTD" || bank_op_code == "SPAY")
+            && matches!(self.field_56, Some(Field56Intermediary::D(_)))
+        {
+            return Some(SwiftValidationError::content_error(
+                "E17",
+                "56a",
+                "D",
+                "Field 56a (Intermediary Institution) may only be used with option A or C when field 23B is SSTD or SPAY",
+                "If field 23B contains one of the codes SSTD or SPAY, field 56a may be used with either option A or option C",
+            ));
+        }
+
         None
     }
 
